@@ -777,4 +777,54 @@ def build_extra():
     C.assume("the devices' proofs (main set) use the platform controller through the contracts PC1-PC3 proved here; the "
              "platform below it is the virtual platform (V1, V2); real hardware platforms are outside")
     C.only_verify = [k for k, f in C.fns.items() if f.verified]
-    return [C]
+    # what the device-level proofs rest on outside this file: software EOS handlers are removed by exactly their keys -
+    # state included (C03's key-removal set); an end / tilt request made while a ball starts is not lost, so flippers
+    # do not come up on a tilted ball (C06's _run_ball contract); the FAST back end really removes a rule it was asked
+    # to clear
+    from . import C03, C06
+    c06 = C06.build()
+    c06.pid = "C10g"
+    c06.replay_pid = "C06"
+    c06.only_verify = ["Game._run_ball"]
+    return [C, C03.key_removal_set("C10k"), c06, fast_driver_set()]
+
+
+FASTD = "mpf/platforms/fast/fast_driver.py"
+
+
+def fast_driver_set():
+    """FAST back end: clear_autofire removes the rule from the board whatever the driver is doing at that moment"""
+    C = ContractSet("C10f", "FAST driver: a cleared rule is gone from the board")
+    C.strings = True
+    C.cls("Logger", fields={})
+    common.declare_noop(C, "Logger", "debug", "info", "warning", reason="logging")
+    C.cls("DelayI", fields={})
+    common.declare_noop(C, "DelayI", "remove", reason="machine-wide delay manager (C13)")
+    C.cls("Communicator", fields=dict(TRIGGER_CMD=Str, machine=ObjS("MachineController", delay=ObjS("DelayI"))))
+    C.ext("Communicator.send_and_forget", model=lambda I, env, a, k: (common.emit(I, "sent", msg=a[0]), NONE)[1],
+          trusted_reason="FAST serial communicator: queues the command for the board (C14)")
+    C.cls("FastDriverConfig", fields=dict(trigger=Str))
+    C.cls("FASTDriver", file=FASTD, fields=dict(
+        log=ObjS("Logger"), number=Str, hw_number=Str, communicator=ObjS("Communicator"),
+        autofire_config=Opt(ObjS("FastDriverConfig")), current_driver_config=ObjS("FastDriverConfig")))
+    for b in ("set_bit", "clear_bit"):
+        C.ext("FASTDriver." + b, model=lambda I, env, a, k: VStr(z3.String(I.fresh_name("hex"))),
+              trusted_reason="hex-string bit helpers (Util.int_to_hex_string)")
+
+    def rule_cleared(I):
+        evs = common.events_named(I, "sent")
+        if len(evs) != 1:
+            return VBool(False)
+        return VBool(z3.SuffixOf(z3.StringVal(",02"), I.force(evs[0].args["msg"]).t))
+    C.helpers["rule_cleared_on_board"] = rule_cleared
+    C.helpers["n_sent"] = lambda I: VInt(len(common.events_named(I, "sent")))
+    C.trace_helpers = {"rule_cleared_on_board", "n_sent"}
+    C.fn("FASTDriver.clear_autofire",
+         ensures=[("FD1: when a rule is configured for the driver, clearing it ALWAYS tells the board to drop the trigger "
+                   "(TL:<n>,02) and forgets the rule - also while a manual pulse / hold has temporarily replaced the rule "
+                   "in the driver - so it cannot be re-armed later",
+                   "implies(old(self.autofire_config) is not None, rule_cleared_on_board() and self.autofire_config is None)"),
+                  ("without a rule nothing is sent", "implies(old(self.autofire_config) is None, n_sent() == 0)")],
+         modifies=["self.autofire_config", "self.current_driver_config.trigger"], raises={})
+    return C
+
